@@ -180,6 +180,47 @@ pub fn child_main(args: &vh_core::cli::Args) {
     }
   }
 
+  // --- slow sink: the appender's file is a FIFO; nothing is read from it until shutdown has begun,
+  // then 1 KiB every 25 ms (copied into `<name>.out`, where the parent looks)
+  let shutdown_started = Arc::new(AtomicBool::new(false));
+  let mut slow_reader = None;
+  if let Some(name) = case["slow_sink"].as_str() {
+    let fifo = dir.join(format!("{}.fifo", name));
+    let out = dir.join(format!("{}.out", name));
+    let ok = std::process::Command::new("mkfifo").arg(&fifo).status().map(|s| s.success()).unwrap_or(false);
+    if !ok {
+      write_result(json!({"init_error": "mkfifo failed"}));
+      return;
+    }
+    let started = shutdown_started.clone();
+    slow_reader = Some(std::thread::spawn(move || {
+      use std::io::{Read, Write};
+      let mut f = match std::fs::File::open(&fifo) {
+        Ok(f) => f,
+        Err(_) => return false,
+      };
+      let mut o = std::fs::File::create(&out).expect("slow sink copy");
+      while !started.load(Ordering::SeqCst) {
+        std::thread::sleep(Duration::from_millis(2));
+      }
+      let mut buf = [0u8; 1024];
+      let t0 = Instant::now();
+      loop {
+        match f.read(&mut buf) {
+          Ok(0) => return true, // writer closed the file: everything it wrote has been copied
+          Ok(n) => {
+            let _ = o.write_all(&buf[..n]);
+          }
+          Err(_) => return false,
+        }
+        if t0.elapsed() > Duration::from_secs(25) {
+          return false;
+        }
+        std::thread::sleep(Duration::from_millis(25));
+      }
+    }));
+  }
+
   let init = match std::panic::catch_unwind(|| fibre_logging::init_from_file(&dir.join("config.yaml"))) {
     Ok(Ok(i)) => i,
     Ok(Err(e)) => {
@@ -313,11 +354,13 @@ pub fn child_main(args: &vh_core::cli::Args) {
   // --- shutdown
   let t0 = Instant::now();
   let shutdown_call = vh_core::stamp();
+  shutdown_started.store(true, Ordering::SeqCst);
+  let shutdown_budget = if slow_reader.is_some() { 20 } else { 8 };
   let r = std::panic::catch_unwind(std::panic::AssertUnwindSafe(|| {
     if how == "drop" {
       drop(init);
     } else {
-      init.shutdown(Duration::from_secs(8));
+      init.shutdown(Duration::from_secs(shutdown_budget));
     }
   }));
   let shutdown_ret = vh_core::stamp();
@@ -333,6 +376,7 @@ pub fn child_main(args: &vh_core::cli::Args) {
   if let Some(h) = pin_handle {
     let _ = h.join();
   }
+  let slow_sink_eof = slow_reader.map(|h| h.join().unwrap_or(false));
   let pin_entered = PIN_ENTERED.load(Ordering::SeqCst);
   quiescent.store(true, Ordering::SeqCst);
   let mut streams = Vec::new();
@@ -350,5 +394,6 @@ pub fn child_main(args: &vh_core::cli::Args) {
     "shutdown_call": shutdown_call, "shutdown_ret": shutdown_ret, "shutdown_ms": shutdown_ms,
     "streams": streams, "panics": *panics.lock().unwrap(), "pre_init_ids": pre_init, "pin_entered": pin_entered,
     "chaos_points": totals.total_points(), "chaos_delays": totals.delays + totals.stalls,
+    "slow_sink_read_to_eof": slow_sink_eof,
   }));
 }
